@@ -283,6 +283,12 @@ def build_corpus(seed: int, n_templates: int, max_bytes: int) -> List[Dict[str, 
         renamed = re.sub(r"\bt0\b", "t0x", text)
         if renamed != text and rng.random() < 0.5:
             docs.append((name + "~t0x", renamed))
+        # one part of a schema split over two files: a table definition is left out, what refers to it stays
+        # (not a valid document on its own - unless nothing referred to the table; a sibling defines it)
+        blocks = list(re.finditer(r"Table (?:\"?\w+\"?\.)?\"?(\w+)\"?[^{\n]*\{\n[\s\S]*?\n\}\n*", text))
+        if len(blocks) > 1:
+            b = rng.choice(blocks)
+            docs.append((name + "~part", text[:b.start()] + text[b.end():]))
     # unusual but legal values: keyword-like and dotted names, numeric strings, blank and very long notes
     docs.append(("keywords", 'Table "table" as "ref" {\n  "ref" int [pk]\n  "note" varchar [note: \'note\']\n  "indexes" int\n'
                  '  "enum" "enum"\n  indexes {\n    "indexes"\n  }\n}\n\nEnum "enum" {\n  "Table"\n  "Ref"\n}\n\n'
